@@ -4,7 +4,7 @@
    dims to a StridePattern with all its error branches, canonicalize, streamer word semantics), tied to
    the code by the L1 correspondence of harness/props/c02.py (real dart-layout-resolution and
    convert-dart-to-snax-stream passes on generated ops). *)
-From Snax Require Import Base.Prelude Base.ListAux Model.C02Stream Proofs.C02StreamProofs Proofs.C02CanonProofs Model.C02Gemmx Proofs.C02GemmxProofs.
+From Snax Require Import Base.Prelude Base.ListAux Model.C02Stream Proofs.C02StreamProofs Proofs.C02CanonProofs Model.C02Gemmx Proofs.C02GemmxProofs Proofs.C02NonnegProofs.
 
 (* 1. Layout resolution (repaired code: unit response minus zero response): whenever layout∘schedule is
       linear on the iteration box — any coefficients, any constant term (static offsets included) —
@@ -73,16 +73,13 @@ Proof. exact canonicalize_words. Qed.
 Print Assumptions C02_canonicalize_words.
 
 (* ... so the pattern that reaches the streaming region when the accelerator does not customise it
-   (snax_alu, snax_phs) still streams exactly the scheduled elements' bytes. *)
+   (snax_alu, snax_phs) still streams exactly the scheduled elements' bytes (the converter's bounds are
+   non-negative inside the Safe class: to_pattern_nonneg). *)
 Theorem C02_final_pattern_bytes_eq :
   forall elsize bcast spats dims p,
   convert_okb elsize spats dims = true -> to_pattern bcast spats dims = Ok p ->
-  Forall (fun b => 0 <= b) (sp_ub p) ->
   byte_stream TCDM (pattern_words (sp_canonicalize p) spats) = byte_stream elsize (nest dims).
-Proof.
-  intros elsize bcast spats dims p Hok Hp Hb. rewrite (canonicalize_words p spats Hb).
-  exact (pattern_bytes_eq elsize bcast spats dims p Hok Hp).
-Qed.
+Proof. exact final_pattern_bytes_eq. Qed.
 Print Assumptions C02_final_pattern_bytes_eq.
 
 (* 4. gemmx set_stride_patterns (all five shapes: matmul i32/i8, gemm i32/i8, rescale-only): five slots;
@@ -141,3 +138,44 @@ Theorem C02_xadd_refuted :
   concat (map (fun ab => fst ab ++ snd ab) (combine (abs_steps 0 p [8]) (abs_steps 4096 p [8]))).
 Proof. exact xadd_refuted. Qed.
 Print Assumptions C02_xadd_refuted.
+
+(* 6. Discharging `linear_on_box` (the premise of C02_resolve_linear).
+   (a) EVERY strided layout (any strides, any static offset, any element size) under ANY affine schedule
+       (any matrix, any offsets) is linear on every box: layout resolution is exact for all of them. *)
+From Snax Require Import Proofs.C02LinearProofs.
+Theorem C02_strided_linear_on_box :
+  forall strides offset elsize A b bounds,
+  rows_ok (List.length bounds) (combine A b) ->
+  linear_on_box (access_mem (LStrided strides offset) elsize A b) bounds.
+Proof. exact strided_linear_on_box. Qed.
+Print Assumptions C02_strided_linear_on_box.
+
+Theorem C02_resolve_strided :
+  forall strides offset elsize A b bounds x,
+  rows_ok (List.length bounds) (combine A b) -> in_box x bounds ->
+  let f := access_mem (LStrided strides offset) elsize A b in
+  dot (resolve f (List.length bounds)) x = f x - f (zero_vec (List.length bounds)).
+Proof. exact resolve_strided. Qed.
+Print Assumptions C02_resolve_strided.
+
+(* (b) tiled-strided layouts: when the schedule writes the index in the mixed radix of the tile bounds
+       (any number of tile levels, any steps), the layout's div/mod chain returns the digits, so
+       layout∘schedule is linear on the box (what set-memory-layout produces; a misaligned tiling is
+       known finding F22, class not_linear_on_box). *)
+Theorem C02_tsl_dim_digits :
+  forall tiles first xs, bounds_pos tiles -> digits_ok first tiles xs ->
+  tsl_dim first tiles (dot (weights tiles) xs) = dot (map fst tiles) xs.
+Proof. exact tsl_dim_digits. Qed.
+Print Assumptions C02_tsl_dim_digits.
+
+Theorem C02_tsl_aligned_linear_on_box :
+  forall tiles elsize bounds, bounds_pos tiles -> box_digits true tiles bounds ->
+  linear_on_box (access_mem (LTsl [tiles]) elsize [weights tiles] [0]) bounds.
+Proof. exact tsl_aligned_linear_on_box. Qed.
+Print Assumptions C02_tsl_aligned_linear_on_box.
+
+Example C02_tsl_aligned_nonvacuous :
+  let tiles := [(64, 2); (1, 8); (8, 4)] in
+  bounds_pos tiles /\ box_digits true tiles [5; 8; 4] /\ weights tiles = [32; 4; 1] /\
+  resolve (access_mem (LTsl [tiles]) 2 [weights tiles] [0]) 3 = [128; 2; 16].
+Proof. repeat split; try reflexivity; try (repeat constructor; cbn; lia); try (cbn; lia). Qed.
